@@ -13,6 +13,12 @@ use serde_json::{json, Value};
 
 pub const VERIF: &str = "/verif";
 
+/// Where evidence / replays are written: /verif, unless XSMC_OUT points elsewhere (background
+/// runs from a snapshot must not overwrite the evidence of the registered checks).
+pub fn out_dir() -> PathBuf {
+    std::env::var("XSMC_OUT").map(PathBuf::from).unwrap_or_else(|_| PathBuf::from(VERIF))
+}
+
 pub fn tier_is_thorough(tier: &str) -> bool {
     tier == "thorough"
 }
@@ -171,7 +177,7 @@ impl Report {
         let known = load_known_findings();
         let mut unknown = 0;
         let mut known_hits = 0;
-        let replays = Path::new(VERIF).join("replays");
+        let replays = out_dir().join("replays");
         let _ = std::fs::create_dir_all(&replays);
         let mut listed = vec![];
         for v in &self.violations {
@@ -226,7 +232,7 @@ impl Report {
             "wall_s": wall,
             "violations": unknown,
         });
-        let evdir = Path::new(VERIF).join("evidence");
+        let evdir = out_dir().join("evidence");
         let _ = std::fs::create_dir_all(&evdir);
         let evfile = evdir.join(format!("{}.json", self.property));
         std::fs::write(&evfile, serde_json::to_string_pretty(&ev).unwrap() + "\n").unwrap();
